@@ -38,6 +38,7 @@ CONSTANTS
  LimitsId = "%s"
  ReqFin = %s
  MaxPauses = %d
+ MaxRestarts = %d
  MaxLen = %d
  DumpAtEnd = %s
 %s
@@ -46,13 +47,18 @@ CONSTANTS
 
 def sys_model(ctx):
     """exhaustive two-node model (Sys.tla): C01_Delivered / C03_OnlyBoth over all interleavings of message deliveries, graphsync steps, app pauses and re-validations"""
-    combos = [("push", "l2_4", "TRUE"), ("pull", "l2_4", "FALSE")] if ctx.quick() else [(d, l, f) for d in ("push", "pull") for l in ("none", "l2", "l2_4") for f in ("FALSE", "TRUE")]
-    for d, l, f in combos:
-        cfg = stages.write_cfg(ctx, "sys-%s-%s-%s.cfg" % (d, l, f), SYS_CFG % (d, 4, l, f, 1, 60, "FALSE", "INVARIANTS C01_Delivered C03_OnlyBoth\nVIEW View\nCONSTRAINT Constr"))
-        res = ctx.tlc("Sys", cfg, timeout=1500, heap="8g")
+    # (direction, limits, finalization, app pauses, restarts): pauses/limits and restarts are explored in separate configurations (their product does not finish)
+    if ctx.quick():
+        combos = [("push", "l2", "TRUE", 1, 0), ("pull", "l2", "FALSE", 1, 0), ("push", "none", "FALSE", 0, 1), ("pull", "none", "TRUE", 0, 1)]
+    else:
+        combos = [(d, l, f, 1, 0) for d in ("push", "pull") for l in ("none", "l2", "l2_4") for f in ("FALSE", "TRUE")] + \
+                 [(d, l, f, 0, 1) for d in ("push", "pull") for l in ("none", "l3") for f in ("FALSE", "TRUE")]
+    for d, l, f, np, nr in combos:
+        cfg = stages.write_cfg(ctx, "sys-%s-%s-%s-%d-%d.cfg" % (d, l, f, np, nr), SYS_CFG % (d, 4, l, f, np, nr, 80, "FALSE", "INVARIANTS C01_Delivered C03_OnlyBoth\nVIEW View\nCONSTRAINT Constr"))
+        res = ctx.tlc("Sys", cfg, timeout=1200, heap="8g")
         if res.violated:
-            raise vlib.Inconclusive("Sys model violates %s (%s %s %s): model-level counterexample, not a verdict\n%s" % (res.violated, d, l, f, res.out[-1500:]))
-        vlib.tlc_must_pass(res, "Sys %s %s %s" % (d, l, f))
+            raise vlib.Inconclusive("Sys model violates %s (%s %s %s pauses=%d restarts=%d): model-level counterexample, not a verdict\n%s" % (res.violated, d, l, f, np, nr, res.out[-1500:]))
+        vlib.tlc_must_pass(res, "Sys %s %s %s %d %d" % (d, l, f, np, nr))
         ctx.add_model(res)
 
 
@@ -65,8 +71,8 @@ def sys_replay(ctx):
     if ctx.quick():
         combos = combos[ctx.seed % 2::2]
     for d, l, f in combos:
-        cfg = stages.write_cfg(ctx, "sys-sim-%s-%s-%s.cfg" % (d, l, f), SYS_CFG % (d, 4, l, f, 1, 70, "TRUE", ""))
-        res = ctx.tlc("Sys", cfg, workers=1, simulate="num=%d" % n_per, depth=80, seed=ctx.seed * 31 + k, timeout=900, heap="6g")
+        cfg = stages.write_cfg(ctx, "sys-sim-%s-%s-%s.cfg" % (d, l, f), SYS_CFG % (d, 4, l, f, 1, 1, 110, "TRUE", ""))
+        res = ctx.tlc("Sys", cfg, workers=1, simulate="num=%d" % n_per, depth=120, seed=ctx.seed * 31 + k, timeout=900, heap="6g")
         k += 1
         if res.timeout or "Error:" in res.out:
             raise vlib.Inconclusive("Sys simulation failed:\n" + res.out[-2000:])
